@@ -680,6 +680,37 @@ func ruleRetryLoop(c *core.Ctx, rule, fname, method string) {
 				return false, true
 			}
 		}
+		// nothing to transfer: length <= 0 (the loop would not have been entered)
+		x, y, op := cm.X, cm.Y, cm.Op
+		if isLen(y) {
+			x, y = y, x
+			switch op {
+			case token.LSS:
+				op = token.GTR
+			case token.LEQ:
+				op = token.GEQ
+			case token.GTR:
+				op = token.LSS
+			case token.GEQ:
+				op = token.LEQ
+			}
+		}
+		if k, isK := core.ConstInt(y); isLen(x) && isK {
+			switch op {
+			case token.LEQ:
+				return k <= 0, false
+			case token.LSS:
+				return k <= 1, false
+			case token.EQL:
+				return k == 0, false
+			case token.GTR:
+				return false, k <= 0
+			case token.GEQ:
+				return false, k <= 1
+			case token.NEQ:
+				return false, k == 0
+			}
+		}
 		return false, false
 	}
 	ok := true
